@@ -17,7 +17,7 @@ import numpy as np, pandas as pd
 from . import common as C
 
 PROP = "C19"; LEVEL = "other"; P_TIER = True
-SCOPE = {"quick": "53 operations (the GroupBy constructor, reductions, transform, agg, apply/median/quantile, cumulative, rolling, shift/diff, ema with and without times, head/tail/nth, group_nearby_members, ratio, density, crosstab, value_counts, "
+SCOPE = {"quick": "54 operations (the GroupBy constructor, reductions, transform, agg, apply/median/quantile, cumulative, rolling, shift/diff, ema with and without times, head/tail/nth, group_nearby_members, ratio, density, subset_ratio with two masks, crosstab, value_counts, "
                   "the accessors groups/key_count/ikey_count/group_ikey/result_index, emas.ema, emas.ema_grouped, numba.group_sum/group_max/cumsum/rolling_sum/rolling_shift), 3 and 4 rows: "
                   "(a) 21 key containers {ndarray int / float-with-null / str / bool / 2-D, pandas Series / Series on a named index / Index / RangeIndex / zero-copy Series view / Categorical / arrow-backed Series, polars Series, pyarrow Array / ChunkedArray, "
                   "list / dict / pandas DataFrame / polars DataFrame of two keys, dict of one Index / RangeIndex} x 18 representative operations (one per family: after GroupBy(keys) an operation only sees the integer codes) x {ndarray values without mask, pandas values with ndarray mask}; "
@@ -314,6 +314,8 @@ def _build_ops():
     op("GroupBy.group_nearby_members", lambda gb, a: gb.group_nearby_members(a["values"], max_diff=1.0), needs=("values",), single=True, numeric=True)
     op("GroupBy.ratio", lambda gb, a: gb.ratio(a["values"], a["values"], mask=a["mask"]), needs=("values", "mask"))
     op("GroupBy.density", lambda gb, a: gb.density(a["values"], mask=a["mask"]), needs=("values", "mask"), single=True)
+    # two row filters at once: the subset mask selects rows outside the global mask too (a["mask2"][2] is True where a["mask"][2] is False)
+    op("GroupBy.subset_ratio", lambda gb, a: gb.subset_ratio(a["values"], a["mask2"], global_mask=a["mask"]), needs=("values", "mask", "mask2"))
     op("GroupBy.groups", lambda gb, a: gb.groups, needs=())
     op("GroupBy.key_count", lambda gb, a: gb.key_count, needs=())
     op("GroupBy.ikey_count", lambda gb, a: gb.ikey_count, needs=())
@@ -423,12 +425,15 @@ def nontrivial(case): return True
 def check_case(sess, case):
     o = OPS[case["op"]]; n = case["n"]; fn = case["op"].split("[")[0]; variant = case["op"][len(fn):]
     keys = make_keys(case["kk"], n)
-    a = {"values": None, "mask": None, "times": None, "columns": None, "codes": None}
+    a = {"values": None, "mask": None, "mask2": None, "times": None, "columns": None, "codes": None}
     index = keys.index if isinstance(keys, pd.Series) else None
     if "values" in o["needs"]:
         a["values"] = make_values(case["vk"], n)
         if index is not None and isinstance(a["values"], (pd.Series, pd.DataFrame)): a["values"].index = index       # aligned with the keys' index
     if "mask" in o["needs"]: a["mask"] = make_mask(case["mk"], n, index if index is not None else (a["values"].index if isinstance(a["values"], (pd.Series, pd.DataFrame)) else None))
+    if "mask2" in o["needs"]:
+        m2 = np.array([(i % 2) == 0 for i in range(n)], dtype=bool)
+        a["mask2"] = pd.Series(m2, index=a["mask"].index) if isinstance(a["mask"], pd.Series) else m2
     if "times" in o["needs"]: a["times"] = np.datetime64("2020-01-01T00:00:00", "ns") + np.arange(n) * np.timedelta64(3600 * 10 ** 9, "ns")
     if "columns" in o["needs"]: a["columns"] = np.array([(i // 2) % 2 for i in range(n)], dtype=np.int64)
     if "codes" in o["needs"]: a["codes"] = np.array(PAT[n], dtype=np.int64)
